@@ -133,7 +133,8 @@ def known(d):
     op = (d.get("op") or "").split(" ")[0]
     if d["case"].startswith("c15_flush_") and d.get("step") == 3 and op == "readtostring":
         return "D23b"
-    if d["case"].startswith("c15_times_") and op in ("setctime", "setmtime", "setatime"):
+    if op in ("setctime", "setmtime", "setatime") and (d.get("impl") or "").startswith("err:NotSupported") and \
+            (d["case"].startswith("c15_times_") or d["case"].startswith("c15_mx_")) and "async differs from sync" in d.get("note", ""):
         return "D23a"
     if d["case"].startswith("c15_zeroread_") and d.get("step") == 6 and op == "hread":
         return "D27"
@@ -152,7 +153,8 @@ BUILDS = [False]
 
 
 def corpus():
-    return []
+    """every operation on every kind of target, on both worlds"""
+    return hist.matrix_cases("c15", ["mem", "phys", "alt_mem", "ovl_mm", "ovl_pp"])
 
 
 def generate(rng, tier):
